@@ -46,9 +46,20 @@ def autocorr_1d_float(data):
     Syy = float64(0)  # Sum(Yi*Yi) when Yi is valid
     ny = float64(0)  # number of valid Yi
 
+    # The correlation does not change when a constant is subtracted from the data.
+    # Subtracting the first valid value keeps the single-pass sums free of
+    # cancellation for data with a small variation on a large level (a constant
+    # series then has exactly zero variance instead of rounding noise).
+    shift = float64(0)
+    for i in range(data.shape[0]):
+        v = float64(data[i])
+        if not isnan(v):
+            shift = v
+            break
+
     for i in range(N):
-        x = float64(xx[i])
-        y = float64(yy[i])
+        x = float64(xx[i]) - shift
+        y = float64(yy[i]) - shift
 
         x_ok = not isnan(x)
         y_ok = not isnan(y)
